@@ -1,5 +1,6 @@
 import DelbModel.Model.Attrs
 import DelbModel.Lemmas.Attrs
+import DelbModel.Generated.Tables
 /-!
 # C11 — Attributes behave as a mapping keyed by namespace and local name
 
@@ -626,5 +627,40 @@ example : ([(Accessor.pair "" "a", ['1']), (Accessor.clark "urn:q" "b", ['2'])].
     eqMapping exCtx exInit [(.local_ "a", ['1']), (.pair "urn:q" "b", ['2'])] = true ∧
     eqMapping exCtx exInit [(.local_ "a", ['1']), (.pair "urn:q" "b", ['3'])] = false := by
   decide
+
+/-! ## names given as strings: Clark notation
+
+"a local name, a Clark-notation name and a (namespace, name) pair that denote the same attribute
+always reach the same entry" starts with reading the string.  `deconstructClark` models
+`deconstruct_clark_notation`; the translator probes the real function on a table of names on every
+run (`Gen.clarkProbes`). -/
+
+/-- translator obligation: on the probed names (plain, Clark, empty namespace `{}a`, several braces,
+    a brace in the middle, unbalanced - where Python raises) the model is the function of /repo -/
+theorem c11_clark_probes :
+    Gen.clarkProbes.length ≥ 10 ∧
+    ∀ p ∈ Gen.clarkProbes, deconstructClark p.1 = (if p.2.2 = "<raises>" then none else some p.2) := by
+  decide
+
+/-- `"{ns}name"` reads as the pair `(ns, name)` - for every namespace (the empty one included) and every
+    local name; a namespace cannot contain a closing brace in this notation -/
+theorem c11_clark_notation (ns l : String) (h : '}' ∉ ns.toList) :
+    accessorOfString ("{" ++ ns ++ "}" ++ l) = some (.clark ns l) := by
+  simp [accessorOfString, deconstructClark_clark ns l h]
+
+/-- … and a string that does not start with a brace is a local name -/
+theorem c11_plain_name (n : String) (h : n.toList.head? ≠ some '{') :
+    accessorOfString n = some (.local_ n) := by
+  simp [accessorOfString, deconstructClark_plain n h]
+
+/-- hence the Clark string and the pair reach the same entry on every element - in particular
+    `"{}name"` is the attribute `("", name)`, not `name` in the element's namespace (seeded C11-9) -/
+theorem c11_clark_string_same_entry (c : Ctx) (ns l : String) (h : '}' ∉ ns.toList) :
+    (accessorOfString ("{" ++ ns ++ "}" ++ l)).map (resolve c) = some (resolve c (.pair ns l)) := by
+  rw [c11_clark_notation ns l h]
+  rfl
+
+example : accessorOfString "{}a" = some (.clark "" "a") ∧ accessorOfString "a" = some (.local_ "a") ∧
+    accessorOfString "{u" = none := by decide
 
 end Delb.Attrs
